@@ -584,7 +584,7 @@ func (c18) RunCase(c fw.Case, env *fw.Env) *fw.CaseResult {
 	res := fw.NewResult()
 	httpx.InstallSink()
 	plans := map[string]models.UserPlan{"EVE": {Name: "eve", MaxCollections: 6, MaxCollectionPointCount: 5000, MaxPointSize: 2048}}
-	nodes, err := httpx.StartCluster(env.Dir, 1, httpx.Options{Plans: plans})
+	nodes, err := httpx.StartCluster(env.Dir, 1, httpx.Options{Plans: plans, MaxCacheSize: []int64{0, 50000}[c.Idx%2]})
 	if err != nil {
 		res.Note("server: %v", err)
 		res.Inconclusive++
